@@ -106,6 +106,10 @@ func TestVerifC20CLI(t *testing.T) {
 		{"check-scan", func(db string) []string { return []string{"check", "--no-sandbox", "--scan", "--db", db, srcFile} }, false},
 		{"index", func(db string) []string { return []string{"index", "--name", "N", "--db", db, srcFile} }, true},
 		{"stats", func(db string) []string { return []string{"stats", "--db", db} }, false},
+		// the default path of the two scanning commands: the command re-executes itself as a worker
+		// (sandboxed where a runtime exists), which works on a scratch COPY of the database
+		{"scan-default-path", func(db string) []string { return []string{"scan", "--db", db, srcFile} }, false},
+		{"check-scan-default-path", func(db string) []string { return []string{"check", "--scan", "--db", db, srcFile} }, false},
 		{"migrate", func(db string) []string { return []string{"migrate", "--from", jsonDB, "--to", db} }, true},
 	}
 	idx := 0
@@ -120,6 +124,9 @@ func TestVerifC20CLI(t *testing.T) {
 				continue
 			}
 			control := strings.HasPrefix(sp.name, "CONTROL")
+			if strings.HasSuffix(c.name, "-default-path") && !control {
+				continue // what the worker does with a protected SOURCE (it copies it) is not judged here
+			}
 			before := c20cliSnapshot(prot)
 			cmd := exec.Command(sfw, c.args(sp.path)...)
 			cmd.Dir = sp.cwd
